@@ -302,3 +302,24 @@ _EXTRA10 = {
 }
 for _k, _v in _EXTRA10.items():
     PROPS[_k]['text'] = PROPS[_k]['text'].rstrip() + _v
+
+_EXTRA11 = {
+ 'C01': ' Iterators that call the per-format fetch functions directly require NO_ALPHA_MAP (C02-R1i, run for C01 as well).',
+ 'C02': ' Lane-0 broadcasts of colour pixels are not taken for alpha (C02-R10); is_opaque is applied to unpacked pixels only (C02-R27, defect F43 - fixed); the y phase of the convolution readers follows the pixel (C02-R26).',
+ 'C03': ' A narrowing between the height clamp and the row undoes the clamp (C03-R2); the direct fill passes the image bounds on every path (C03-R15).',
+ 'C04': ' The hull of the transformed corners is trusted only while w keeps its sign (C04-R14, defect F41 - fixed); an image without pixels loses FAST_PATH_NO_ACCESSORS (C04-R15, defect F42 - fixed).',
+ 'C05': ' A rectangle empty on one axis alone never becomes a one-rectangle region (C05-R11, second clause).',
+ 'C06': ' A rectangle empty on one axis alone never becomes a one-rectangle region (C06-R10, second clause).',
+ 'C07': ' Translation amounts are the function\'s own parameters of the matching axis (C07-R17).',
+ 'C08': ' Each phase extraction takes a coordinate that varies with the pixel (C08-R19).',
+ 'C09': ' The COVER_CLIP promotion to opaque relies on extents that hold only while w keeps its sign (C09-R10, defect F41 - fixed); converted pixels get the alpha mask on every branch (C09-R11).',
+ 'C10': ' Every call through a convert_pixel callback is or-ed with the alpha mask (C10-R17).',
+ 'C11': ' The caller\'s matrices are written by the matrix product or under bottom row == (0, 0, 1) (C11-R16).',
+ 'C12': ' Extents follow the lines, not their end points (C12-R17: the tree does not - known finding F45).',
+ 'C13': ' Gradient scanlines skip a pixel only on the whole mask word (C13-R14).',
+ 'C16': ' Source iterators and their fini callbacks do not write their image (C16-R7).',
+ 'C17': ' The cached copy is created cleared (C17-R9).',
+ 'C19': ' Every path to the direct fill passes the image bounds (C19-R14).',
+}
+for _k, _v in _EXTRA11.items():
+    PROPS[_k]['text'] = PROPS[_k]['text'].rstrip() + _v
